@@ -226,6 +226,38 @@ pub fn run(cx: &mut Ctx) {
             cx.sample(case());
         }
     }
+    // ---- honest Ed25519 key pairs whose public-key encoding is structured (found by grinding seeds, see c06): the
+    // ---- conversion must accept them and give libsodium's values
+    {
+        let per_shard = cx.tier.pick(0usize, 120_000, 2_000_000);
+        let (keys, found) = super::c06::grind_structured_keys(cx, per_shard, 0xC13_0000, 40);
+        for (seed, e, class) in keys {
+            let (wpk, wsk) = na::sign_seed_keypair(&seed);
+            if wpk != e {
+                cx.violation("HARNESS|C13|ground_key_differs_from_libsodium", json!({"seed":hx(&seed)}));
+                break;
+            }
+            let Some(wx_pk) = na::ed_pk_to_curve(&wpk) else { continue };
+            let wx_sk = na::ed_sk_to_curve(&wsk);
+            let mut xpk = stale_arr::<32>();
+            let mut xsk = stale_arr::<32>();
+            let c2 = || json!({"op":"ed25519_to_curve25519","ed_pk":hx(&wpk),"seed":hx(&seed),"public_key_class":class});
+            cx.key(&format!("ground {} {}", class, hx(&seed[..4])));
+            if let Some(r) = call(cx, "C13|crypto_sign_ed25519_pk_to_curve25519", "crypto_sign_ed25519_pk_to_curve25519", c2, || crypto_sign_ed25519_pk_to_curve25519(&mut xpk, &wpk)) {
+                expect(cx, &format!("C13|crypto_sign_ed25519_pk_to_curve25519|rejects_honest_key|structured_encoding:{}", class), r.is_ok(), c2);
+                if r.is_ok() {
+                    expect_eq(cx, "C13|crypto_sign_ed25519_pk_to_curve25519|mismatch_vs_libsodium|structured_encoding", &xpk, &wx_pk, c2);
+                }
+            }
+            if call(cx, "C13|crypto_sign_ed25519_sk_to_curve25519", "crypto_sign_ed25519_sk_to_curve25519", c2, || crypto_sign_ed25519_sk_to_curve25519(&mut xsk, &wsk)).is_some() {
+                expect_eq(cx, "C13|crypto_sign_ed25519_sk_to_curve25519|mismatch_vs_libsodium|structured_encoding", &xsk, &wx_sk, c2);
+            }
+            let (dpk, dsk) = crypto_sign_seed_keypair(&seed);
+            expect_eq(cx, "C13|crypto_sign_seed_keypair|mismatch_vs_libsodium|structured_encoding", &[&dpk[..], &dsk[..]].concat(), &[&wpk[..], &wsk[..]].concat(), c2);
+            cx.cover("ground_public_key_class", class);
+        }
+        cx.note("ground_keys", json!({"seeds_tried_this_shard":per_shard,"found":found}));
+    }
     if cx.shard == 0 {
         cx.sample(json!({"family":"box seeds","lengths":"0..=128","contents":["zeros","ff","random"]}));
     }
